@@ -19,6 +19,26 @@ pub fn subs() -> Vec<Sub> {
     ]
 }
 
+/// Six of the enumerated setter-call sequences (chosen by the case digest, so that all ~600 are
+/// spread over the cases and a replay picks the same ones): an options object built by calling
+/// setters in any order, repeatedly, on and off again, denotes the setting "last write per
+/// field" and must finalize to the reference result for that setting.
+fn setters_vs_model(_va: &dyn VariantApi, g: &dyn GenObj, mg: &vmodel::Gen, digest: u64, what: &str, st: &CaseStats) -> Result<(), String> {
+    thread_local! {
+        static SEQS: Vec<Vec<(u8, bool)>> = setter_sequences();
+    }
+    SEQS.with(|seqs| {
+        for j in 0..6u64 {
+            let seq = &seqs[(digest.wrapping_add(j.wrapping_mul(0x9E37_79B9_7F4A_7C15)) % seqs.len() as u64) as usize];
+            let eff = setters_effective(seq);
+            let r = crate::ctx::catch(|| g.finalize_setters(seq)).map_err(|p| format!("{}: finalize after {} panicked: {}", what, setters_name(seq), p))?;
+            st.eval();
+            compare_result(&format!("{}: GeneratorOptions::new().{} (denotes {})", what, setters_name(seq), opt_name(eff.index())), &r, &mg.finalize(eff))?;
+        }
+        Ok(())
+    })
+}
+
 /// One data case: implementation vs model under all 32 option settings.
 pub fn case_data(va: &dyn VariantApi, data: &[u8], st: &CaseStats) -> Result<(), String> {
     let v = va.v();
@@ -54,6 +74,8 @@ pub fn case_data(va: &dyn VariantApi, data: &[u8], st: &CaseStats) -> Result<(),
         compare_result(&format!("{} hash_buf_for", v.name), &r, &m0)?;
         st.eval();
     }
+    // option objects built by other setter sequences denote the same 32 settings
+    setters_vs_model(va, g.as_ref(), &mg, fnv(data), &format!("{} on {} bytes", v.name, data.len()), st)?;
     // a generator obtained through Default behaves as one obtained through new()
     let mut gd = va.generator_default();
     gd.update(data);
@@ -143,6 +165,7 @@ pub fn case_state(va: &dyn VariantApi, gs: &GenState, st: &CaseStats) -> Result<
             }
         }
     }
+    setters_vs_model(va, g.as_ref(), &mg, fnv_mix(gs.len as u64, gs.buckets.iter().fold(7u64, |h, &b| fnv_mix(h, b as u64))), &format!("{} on injected state (n={})", v.name, total), st)?;
     // finalize() is finalize_with_options(default) on every state, not only on small inputs
     let m0 = mg.finalize(Opts::from_index(Opts::DEFAULT_INDEX));
     compare_result(&format!("{} finalize() on injected state (n={})", v.name, total), &g.finalize_default(), &m0)?;
